@@ -554,7 +554,7 @@ func plainness(c *rcase) string {
 		}
 		rank.WriteByte(r)
 		if t.K == "int" && t.W == 1 {
-			rank.WriteByte('1') // i1 is its own abstract shape; prefer the generic width
+			rank.WriteByte('z') // i1 is its own abstract shape; prefer the generic width
 		}
 		if t.K == "ptr" && t.AS != 0 {
 			n++
